@@ -23,7 +23,10 @@ RULE = ("E-PROD over (family, instance, orientation sigma=+-1, bracket kind, ini
         "iterations (measured from SolutionInfo.iterations), i.e. more than one Newton step from the guess.")
 ASSUMPTIONS = [
     "function families: linear, x^3+ax-c (monotone), x^3-x-c (three roots), (x-c)^3 (flat at the root), tanh(a(x-c)) "
-    "(saturating, f'=0 far away), sign(x)|x|^p-c (power law), exp(x)-c; f finite on the whole bracket",
+    "(saturating, f'=0 far away), sign(x)|x|^p-c (power law), exp(x)-c, (x-a)^5-c (flat away from the root), "
+    "exp(kx)-c with |k| >= 110 (Newton creeps by 1/k per iteration from the steep side), u/sqrt(1+u^2) (Newton map "
+    "u -> -u^3, exact 2-cycle at |u|=1; the bracket kind 'cycle' puts the first bisection point on it); f finite on the "
+    "whole bracket",
     "bracket given as (lo, hi) with lo <= hi; |f(lo) f(hi)| neither underflows nor overflows (a sign change whose product "
     "underflows, e.g. f=1e-170(x-0.3) on [-1,1], returns NaN in the real code: outside the alphabet, reported separately)",
     "tolerance settings with both tolerances zero are not admissible",
@@ -96,6 +99,8 @@ def _fam_jnp(name):
         "steep": lambda x, th: np.sign(x) * np.abs(x) ** th[1] - th[0],
         "exp": lambda x, th: np.exp(x) - th[0],
         "flatoff": lambda x, th: (x - th[0]) ** 5 - th[1],
+        "expk": lambda x, th: np.exp(th[0] * x) - th[1],
+        "rsig": lambda x, th: (x - th[0]) / np.sqrt(1.0 + (x - th[0]) * (x - th[0])),
     }[name]
 
 
